@@ -144,15 +144,13 @@ func (p *Pilot) Height() int64 { return p.C.Height }
 
 // Tx signs, delivers and records one transaction.
 func (p *Pilot) Tx(label string, signer *Acct, msgs ...sdk.Msg) abci.ResponseDeliverTx {
-	// A transaction that fails the STATELESS ValidateBasic never passes CheckTx, so an honest proposer never
-	// puts it in a block; it is left out.  (Observation, cosmos-sdk v0.45 baseapp, not Sifchain code: for such a
-	// transaction DeliverTx reports GasWanted 0 and GasUsed = whatever the block's BeginBlock consumed on the
-	// shared infinite gas meter, which is larger in the first block after a node restart — x/upgrade's
-	// in-memory `downgradeVerified` flag — so a byzantine proposer could make a restarted node disagree.)
+	// Does the transaction fail the STATELESS ValidateBasic (decided from the messages alone)?  Such a
+	// transaction never passes CheckTx of an honest node, but a proposer can put it in a block; baseapp then
+	// rejects it before the ante handler runs (see finding F25 for what DeliverTx reports as GasUsed).
+	stateless := false
 	for _, m := range msgs {
 		if err := m.ValidateBasic(); err != nil {
-			p.Hist[label+":skipped.validatebasic"]++
-			return abci.ResponseDeliverTx{Code: 99998}
+			stateless = true
 		}
 	}
 	raw, err := p.C.SignTx(signer, 5000000, msgs...)
@@ -163,8 +161,12 @@ func (p *Pilot) Tx(label string, signer *Acct, msgs ...sdk.Msg) abci.ResponseDel
 	r := p.C.Deliver(raw)
 	p.cur.Txs = append(p.cur.Txs, hex.EncodeToString(raw))
 	p.cur.Labels = append(p.cur.Labels, label)
+	p.cur.Stateless = append(p.cur.Stateless, stateless)
 	p.curObs.Txs = append(p.curObs.Txs, txObs(r))
 	cls := "ok"
+	if stateless {
+		label += "[stateless-invalid]"
+	}
 	if r.Code != 0 {
 		cls = fmt.Sprintf("err%d.%s", r.Code, r.Codespace)
 	}
@@ -596,6 +598,8 @@ func (p *Pilot) FailingShape() {
 		} else {
 			m := ethbridgetypes.NewMsgLock(1, u.Addr, ethSender, sdk.NewIntFromBigInt(pow10(30)), "rowan", sdk.NewIntFromBigInt(new(big.Int).Mul(big.NewInt(70), pow10(15))))
 			p.Tx("bridge.lock.nofunds", u, &m)
+			low := ethbridgetypes.NewMsgLock(1, u.Addr, ethSender, sdk.NewIntFromBigInt(pow10(18)), "rowan", sdk.NewInt(1)) // fails ValidateBasic (ceth fee too low)
+			p.Tx("bridge.lock.lowfee", u, &low)
 		}
 	case 12: // margin: borrow more than the pool holds / position too small for interest payments
 		pool := []string{"ceth", "cusdc"}[p.R.Intn(2)]
